@@ -15,12 +15,12 @@ theorem handlerOf_closeSession : handlerOf "CloseSessionRequest" = some ⟨"Clos
 theorem handlerOf_read : handlerOf "ReadRequest" = some ⟨"ReadRequest", "AttributeService", "Read", false, "none", false⟩ := by decide
 theorem handlerOf_write : handlerOf "WriteRequest" = some ⟨"WriteRequest", "AttributeService", "Write", false, "none", false⟩ := by decide
 theorem handlerOf_browse : handlerOf "BrowseRequest" = some ⟨"BrowseRequest", "ViewService", "Browse", false, "none", false⟩ := by decide
-theorem handlerOf_createSubscription : handlerOf "CreateSubscriptionRequest" = some ⟨"CreateSubscriptionRequest", "SubscriptionService", "CreateSubscription", false, "session", false⟩ := by decide
+theorem handlerOf_createSubscription : handlerOf "CreateSubscriptionRequest" = some ⟨"CreateSubscriptionRequest", "SubscriptionService", "CreateSubscription", false, "session", true⟩ := by decide
 theorem handlerOf_publish : handlerOf "PublishRequest" = some ⟨"PublishRequest", "SubscriptionService", "Publish", false, "session", true⟩ := by decide
-theorem handlerOf_deleteSubscriptions : handlerOf "DeleteSubscriptionsRequest" = some ⟨"DeleteSubscriptionsRequest", "SubscriptionService", "DeleteSubscriptions", false, "session", false⟩ := by decide
-theorem handlerOf_createMonitoredItems : handlerOf "CreateMonitoredItemsRequest" = some ⟨"CreateMonitoredItemsRequest", "MonitoredItemService", "CreateMonitoredItems", false, "session", false⟩ := by decide
-theorem handlerOf_setMonitoringMode : handlerOf "SetMonitoringModeRequest" = some ⟨"SetMonitoringModeRequest", "MonitoredItemService", "SetMonitoringMode", false, "session", false⟩ := by decide
-theorem handlerOf_deleteMonitoredItems : handlerOf "DeleteMonitoredItemsRequest" = some ⟨"DeleteMonitoredItemsRequest", "MonitoredItemService", "DeleteMonitoredItems", false, "session", false⟩ := by decide
+theorem handlerOf_deleteSubscriptions : handlerOf "DeleteSubscriptionsRequest" = some ⟨"DeleteSubscriptionsRequest", "SubscriptionService", "DeleteSubscriptions", false, "session", true⟩ := by decide
+theorem handlerOf_createMonitoredItems : handlerOf "CreateMonitoredItemsRequest" = some ⟨"CreateMonitoredItemsRequest", "MonitoredItemService", "CreateMonitoredItems", false, "session", true⟩ := by decide
+theorem handlerOf_setMonitoringMode : handlerOf "SetMonitoringModeRequest" = some ⟨"SetMonitoringModeRequest", "MonitoredItemService", "SetMonitoringMode", false, "session", true⟩ := by decide
+theorem handlerOf_deleteMonitoredItems : handlerOf "DeleteMonitoredItemsRequest" = some ⟨"DeleteMonitoredItemsRequest", "MonitoredItemService", "DeleteMonitoredItems", false, "session", true⟩ := by decide
 
 /-! ### the activation flag is never read -/
 
@@ -85,7 +85,7 @@ theorem itemLoop_deactivate (st : St) (c : Option Session) (site : Site) (u m : 
 theorem body_deactivate_out (st : St) (t : Tok) (r : Req) :
     (body (deactivate st) t r).2 = (body st t r).2 := by
   cases r with
-  | findServers => cases h : st.endpointsEmpty <;> simp [body, h]
+  | findServers => cases h : st.endpointsEmpty <;> cases hc : findServersChecksEndpoints <;> simp [body, h, hc]
   | getEndpoints => rfl
   | createSession k s c => cases s <;> cases c <;> simp only [body] <;> (try rfl) <;> (cases hn : newSessionSignatureChecked <;> simp [hn])
   | activateSession s ok =>
@@ -102,10 +102,11 @@ theorem body_deactivate_out (st : St) (t : Tok) (r : Req) :
   | writeAttr w a =>
     cases h : st.accessAttr <;> simp [body, accessCheck, h] <;>
       (by_cases hw : w = "DataType" <;> simp [hw])
-  | browse c b => cases c <;> cases b <;> cases h : st.dataTypeAttr <;> simp [body, h]
+  | browse c b =>
+    cases c <;> cases b <;> cases h : st.dataTypeAttr <;> cases hd : dataTypeAssertionChecked <;> simp [body, h, hd]
   | createSubscription iv =>
     simp only [body, findSession_deactivate, deactivate_subs, deactivate_lastSub]
-    cases findSession st t <;> cases iv <;> rfl
+    cases findSession st t <;> cases iv <;> cases hp : publishingIntervalRevised <;> simp [effectiveInterval, hp]
   | publish =>
     simp only [body, findSession_deactivate]
     cases findSession st t <;> rfl
